@@ -205,7 +205,7 @@ func runVlog(c *corr.Ctx) error {
 		c.Count("script_" + name)
 		runProg(c, vScriptCfg[name], vScripts[name], "script:"+name)
 	}
-	n := c.Scale(16, 1000)
+	n := c.Scale(16, 300)
 	for i := 0; i < n; i++ {
 		cfg := vcfg{Buckets: 1 + c.Rng.Intn(3), FileSize: corr.Pick(c.Rng, vFileSizes), Threshold: 32}
 		p := vProfile{steps: 18 + c.Rng.Intn(24)}
